@@ -1,70 +1,51 @@
 /-
-  C04 — exactly one highest-salience satisfied rule fires per cycle.
-  Decision logic of the salience scan (`pickRunner`, engine/GruleEngine.go) stated outright, for all
-  integer saliences and every iteration order; trace-level statements are in `Proofs/Trace.lean`
-  and re-exported here.
+  C04 — rule actions write exactly the computed values to exactly the addressed facts.
+  `specActions` (SpecEngine.lean) is the specification: a left fold over the action list; every
+  right-hand side is computed from scratch on the facts as left by the preceding action, the result is
+  stored by `writeRoot / writeField / writeIndex` into the addressed cell (with the `SetNumberValue`
+  conversions regenerated from the Go source), and the first failure stops the list.
 -/
-import GruleModel.Engine
+import GruleModel.Proofs.Side
 namespace Grule.C04
+open Grule
 
-/-- the runner is one of the candidates -/
-theorem C04_runner_is_candidate (r : RuleEntry) (rs : List RuleEntry) : pickRunner r rs ∈ r :: rs := by
-  induction rs generalizing r with
-  | nil => simp [pickRunner]
-  | cons p rest ih =>
-    unfold pickRunner
-    split
-    · have := ih p
-      simp only [List.mem_cons] at this ⊢
-      rcases this with h | h
-      · right; left; exact h
-      · right; right; exact h
-    · have := ih r
-      simp only [List.mem_cons] at this ⊢
-      rcases this with h | h
-      · left; exact h
-      · right; right; exact h
+/-- **C04 sequencing (under the side conditions).** Executing a `then` list with the working memory —
+    memoised right-hand sides, memoised selector expressions, resets after every write — has exactly
+    the result and the effect on the facts (and on Retract/Complete flags) of the memo-free fold. -/
+theorem C04_actions_sequential {c : Cfg} {T : Var → Prop} (hp : MethodsPure c) (hi : SnapInj) (hf : FrameHyp c T)
+    (acts : List Action) (s : EState)
+    (hw : ∀ a ∈ acts, wfAction a = true ∧ ∀ op t e, a = .assign op t e → T t) (hc : Coh c s) :
+    (execActions c s 0 acts).1 = (specActions c s.vis acts).1 ∧
+    (execActions c s 0 acts).2.vis = (specActions c s.vis acts).2 :=
+  let h := execActions_sound hp hi hf acts s 0 hw hc
+  ⟨h.val, h.vis⟩
 
-/-- auxiliary: the scan never lowers the salience it holds -/
-theorem pickRunner_ge_start (r : RuleEntry) (rs : List RuleEntry) :
-    r.rule.salience ≤ (pickRunner r rs).rule.salience := by
-  induction rs generalizing r with
-  | nil => simp [pickRunner]
-  | cons p rest ih =>
-    unfold pickRunner
-    split
-    · rename_i h; exact Int.le_trans (Int.le_of_lt h) (ih p)
-    · exact ih r
+/-- the first failing action stops the list and keeps what the completed actions did -/
+theorem C04_failure_keeps_prefix (c : Cfg) (v : Vis) (a : Action) (rest : List Action) (e : Err) (v1 : Vis)
+    (h : specAction c v a = (.error e, v1)) : specActions c v (a :: rest) = (.error e, v1) := by
+  simp only [specActions, h]
 
-/-- the runner's salience is maximal among all candidates of the cycle (any `Int`, hence the whole
-    int32 range, negative and equal values included) -/
-theorem C04_max_salience (r : RuleEntry) (rs : List RuleEntry) :
-    ∀ p ∈ r :: rs, p.rule.salience ≤ (pickRunner r rs).rule.salience := by
-  induction rs generalizing r with
-  | nil => intro p hp; simp at hp; subst hp; simp [pickRunner]
-  | cons q rest ih =>
-    intro p hp
-    unfold pickRunner
-    split
-    · rename_i h
-      simp only [List.mem_cons] at hp
-      rcases hp with hp | hp | hp
-      · subst hp; exact Int.le_trans (Int.le_of_lt h) (pickRunner_ge_start q rest)
-      · subst hp; exact pickRunner_ge_start p rest
-      · exact ih q p (by simp [hp])
-    · rename_i h
-      simp only [List.mem_cons] at hp
-      rcases hp with hp | hp | hp
-      · subst hp; exact pickRunner_ge_start p rest
-      · subst hp; exact Int.le_trans (Int.not_lt.mp h) (pickRunner_ge_start r rest)
-      · exact ih r p (by simp [hp])
+/-- a successful action hands its facts to the next one -/
+theorem C04_success_continues (c : Cfg) (v : Vis) (a : Action) (rest : List Action) (u : Unit) (v1 : Vis)
+    (h : specAction c v a = (.ok u, v1)) : specActions c v (a :: rest) = specActions c v1 rest := by
+  simp only [specActions, h]
 
-/-- non-vacuity: three candidates with saliences 0, 5, 5 — the first maximal one (B) runs -/
-example :
-    let mk := fun (n : String) (s : Int) => ({ key := n, rule := { name := n, desc := "", salience := s, cond := default, acts := [] } } : RuleEntry)
-    (pickRunner (mk "A" 0) [mk "B" 5, mk "C" 5]).key = "B" := by decide
+/-- a plain assignment stores the from-scratch value of its right-hand side -/
+theorem C04_assign_value (c : Cfg) (v : Vis) (t : Var) (rhs : Expr) (rv : Val) (h : specE c v.st rhs = .ok rv) :
+    specAction c v (.assign .set t rhs) = specAssign c v t rv := by
+  simp only [specAction, h, AssignOp.binop]
+
+/-- a compound assignment stores `current op rhs`, with `current` read after the right-hand side was computed -/
+theorem C04_compound_value (c : Cfg) (v : Vis) (op : AssignOp) (bop : BinOp) (t : Var) (rhs : Expr) (rv cur nv : Val)
+    (hop : op.binop = some bop) (h : specE c v.st rhs = .ok rv) (hc : specV c v.st t = .ok cur)
+    (hb : evalBinOp c v.st bop cur rv = .ok nv) :
+    specAction c v (.assign op t rhs) = specAssign c v t nv := by
+  simp only [specAction, h, hop, hc, hb]
 
 end Grule.C04
 
-#print axioms Grule.C04.C04_runner_is_candidate
-#print axioms Grule.C04.C04_max_salience
+#print axioms Grule.C04.C04_actions_sequential
+#print axioms Grule.C04.C04_failure_keeps_prefix
+#print axioms Grule.C04.C04_success_continues
+#print axioms Grule.C04.C04_assign_value
+#print axioms Grule.C04.C04_compound_value
